@@ -157,8 +157,8 @@ func ruleCode128State(c *Ctx) {
 		for _, b := range fn.Blocks {
 			var phis []*ssa.Phi
 			for _, ins := range b.Instrs {
-				if p, ok := ins.(*ssa.Phi); ok {
-					phis = append(phis, p)
+				if p, ok := ins.(*ssa.Phi); ok && isIntType(p.Type()) {
+					phis = append(phis, p) // (a symbol list kept in a slice variable is not loop state of interest)
 				}
 			}
 			if len(phis) == 2 && hdr == nil && len(b.Succs) == 2 {
@@ -406,14 +406,26 @@ func ruleCode39Assembly(c *Ctx) {
 				}
 				// structural comparison instead of strings: two alternatives, table entry under ok, the rune itself otherwise
 				okTable, okSelf, extra := false, false, ""
+				// "the table has r": the comma-ok flag of a map, or a non-empty entry of an array indexed by r
+				has := MustRefCond("r <= 127 && ok")
+				hasNot := MustRefCond("r <= 127 && !ok")
+				const arrEntry = "global:code39.extendedTable[r]"
+				for _, cs := range cases {
+					if cs.val.String() == "Cat(acc,"+arrEntry+")" {
+						empty := "Eq(const:\"\"," + arrEntry + ")"
+						has, hasNot = MustRefCond("r <= 127 && !emp"), MustRefCond("r <= 127 && emp")
+						renameAtoms(has, map[string]string{"emp": empty})
+						renameAtoms(hasNot, map[string]string{"emp": empty})
+					}
+				}
 				for _, cs := range cases {
 					v := cs.val.String()
 					switch {
-					case v == "Cat(acc,idx(global:code39.extendedTable,r)#0)":
-						eq, _ := CondEquivalent(cs.cond, MustRefCond("r <= 127 && ok"))
+					case v == "Cat(acc,idx(global:code39.extendedTable,r)#0)" || v == "Cat(acc,"+arrEntry+")":
+						eq, _ := CondEquivalent(cs.cond, has)
 						okTable = eq
 					case strings.HasPrefix(v, "Cat(acc,Conv:string("):
-						eq, _ := CondEquivalent(cs.cond, MustRefCond("r <= 127 && !ok"))
+						eq, _ := CondEquivalent(cs.cond, hasNot)
 						okSelf = eq
 					default:
 						extra += v + " when " + cs.cond.String() + "; "
